@@ -10,6 +10,68 @@ SOURCES = {
 }
 
 
+SOURCES_EXTRA = {
+    'src/d.js': 'x = (((1)));\ny = [1, "two", [3, (4)], foo(5, [6])];\nz = a.b(c, 7)("s", 8);\nfoo((9), ("t"), w);\n',
+}
+KINDS = ['number', 'string', 'identifier', 'array', 'call_expression', 'arguments', 'member_expression', 'parenthesized_expression']
+
+
+def random_base(rng):
+    """A random utility graph: every reference position (all/any/not, the four relations, nthChild.ofRule,
+    bare matches, self-reference through a relation) and a handful of fixable top rules whose kinds come
+    from the utilities, several of them matching the same nodes."""
+    n = rng.randint(3, 7)
+    names = [f'u{i}' for i in range(n)]
+    utils = {}
+    for i, name in enumerate(names):
+        k = rng.choice(KINDS); k2 = rng.choice(KINDS)
+        if i == 0:
+            utils[name] = {'kind': k}
+            continue
+        ref = {'matches': rng.choice(names[:i])}
+        shape = rng.choice([0, 1, 2, 2, 2, 3, 4, 5, 6, 7, 8, 9, 9])
+        if shape == 0:
+            u = {'any': [{'kind': k}, ref]}
+        elif shape == 1:
+            u = {'all': [{'kind': k}, {'has': dict(ref, stopBy='end')}]}
+        elif shape == 2:
+            u = {'kind': k, 'nthChild': {'position': rng.choice([1, 2, '2n+1']), 'ofRule': {rng.choice(['any', 'all']): [ref, {'kind': k2}] if rng.random() < 0.7 else [ref]}}}
+            if rng.random() < 0.6:
+                del u['kind']  # the utility's kinds then come from the ofRule alone
+        elif shape == 3:
+            u = {'kind': k, 'inside': dict(ref, stopBy='end')}
+        elif shape == 4:
+            u = {'kind': k, 'not': ref}
+        elif shape == 5:
+            u = {'kind': k, rng.choice(['follows', 'precedes']): dict(ref, stopBy='end')}
+        elif shape == 6:
+            u = dict(ref)
+        elif shape == 7:
+            u = {'kind': k, 'has': {'any': [{'kind': k2}, {'matches': name}], 'stopBy': rng.choice(['end', 'neighbor'])}}
+        elif shape == 8:
+            u = {'any': [{'all': [ref, {'kind': k}]}, {'kind': k2, 'has': dict(ref)}]}
+        else:
+            u = {'kind': k, 'has': {'nthChild': {'position': 1, 'ofRule': ref}, 'stopBy': 'end'}}
+        utils[name] = u
+    # some utilities become global ones (they may only reference other globals, so take a prefix)
+    n_glob = rng.choice([0, 0, 1, 2])
+    glob_names = names[:n_glob]
+    globals_ = [{'id': g, 'language': 'JavaScript', 'rule': utils.pop(g)} for g in glob_names]
+    rules = []
+    for i in range(rng.randint(2, 4)):
+        target = rng.choice(names[len(names) // 2:])
+        body = {'matches': target}
+        if rng.random() < 0.4:
+            body = {'matches': target, 'inside': {'kind': rng.choice(['program', 'arguments', 'array', 'expression_statement']), 'stopBy': 'end'}}
+        r = {'id': f'r{i}', 'language': 'JavaScript', 'rule': body, 'utils': json.loads(json.dumps(utils)), 'message': f'r{i} hit'}
+        if rng.random() < 0.7:
+            r['fix'] = f'R{i}'
+        if not r['utils']:
+            del r['utils']
+        rules.append(r)
+    return rules, globals_
+
+
 def permuted(d, order):
     keys = list(d)
     return {keys[i]: d[keys[i]] for i in order}
@@ -62,8 +124,10 @@ def variant(rules, rng):
     return out
 
 
-def write_project(d, rules, globals_, rng, layout):
+def write_project(d, rules, globals_, rng, layout, fixed=True):
     tree = dict(SOURCES)
+    if not fixed:
+        tree.update(SOURCES_EXTRA)
     tree['sgconfig.yml'] = 'ruleDirs: [rules]\nutilDirs: [utils]\ntestConfigs:\n  - testDir: tests\n'
     names = [f'{rng.choice("abcxyz")}{i}-{r["id"]}.yml' for i, r in enumerate(rules)] if layout else [f'{r["id"]}.yml' for r in rules]
     if layout == 2:
@@ -75,8 +139,10 @@ def write_project(d, rules, globals_, rng, layout):
             tree[f'rules/{n}'] = json.dumps(r)
     for g in globals_:
         tree[f'utils/{g["id"]}.yml'] = json.dumps(g)
-    tree['tests/r1-test.yml'] = 'id: r1\nvalid:\n  - bar(1, 2)\n  - foo(1)\ninvalid:\n  - foo(abc, 12)\n  - "foo(x, \\"s\\")"\n'
-    tree['tests/r2-test.yml'] = 'id: r2\nvalid:\n  - baz(1)\ninvalid:\n  - foo(1, 2)\n  - bar(q)\n'
+    tree['utils/gx.yml'] = json.dumps({'id': 'gx', 'language': 'JavaScript', 'rule': {'kind': 'regex'}})
+    if fixed:
+      tree['tests/r1-test.yml'] = 'id: r1\nvalid:\n  - bar(1, 2)\n  - foo(1)\ninvalid:\n  - foo(abc, 12)\n  - "foo(x, \\"s\\")"\n'
+      tree['tests/r2-test.yml'] = 'id: r2\nvalid:\n  - baz(1)\ninvalid:\n  - foo(1, 2)\n  - bar(q)\n'
     common.write_tree(d, tree)
     return tree
 
@@ -99,18 +165,23 @@ def read_orders(log, seen):
         os.unlink(log)
 
 
-def run_project(rep, ctx, work, k, rng):
-    rules, globals_ = base_rules(rng)
-    n_variants = 20 if ctx.thorough else 8
+def run_project(ctx, work, k):
+    import random
+    rng = random.Random(f'C13-{ctx.seed}-{k}')
+    rep = new_report(); rep['_nt'] = set()
+    fixed = k % 8 == 0
+    rules, globals_ = base_rules(rng) if fixed else random_base(rng)
+    n_variants = (20 if ctx.thorough else 8) if fixed else (8 if ctx.thorough else 4)
     n_launch = 12 if ctx.thorough else 6
     reference = None
+    upd_ref = None
     snap_ref = None
     orders = {}
     for v in range(n_variants):
         vr = rules if v == 0 else variant(rules, rng)
         d = os.path.join(work, f'p{k}v{v}')
         shutil.rmtree(d, ignore_errors=True)
-        tree = write_project(d, vr, globals_, rng, v % 3)
+        tree = write_project(d, vr, globals_, rng, v % 3, fixed)
         replay = {'monitor': 'py:c13', 'tree': tree}
         for launch in range(n_launch):
             j = 1 if launch % 2 == 0 else 8
@@ -122,6 +193,9 @@ def run_project(rep, ctx, work, k, rng):
                 got = sorted(canon(json.loads(l)) for l in out.decode('utf-8').splitlines() if l.strip())
             except Exception as ex:
                 add_violation(rep, 'C13/output-unreadable', f'variant {v} launch {launch}: {ex}; {err[-200:]!r}', replay); continue
+            # a configuration is accepted or rejected, never "sometimes": the verdict is part of the result
+            got.append(f'exit-class={"error" if rc not in (0, 1) else "ok"}')
+            count(rep, 'launches_rejected' if rc not in (0, 1) else 'launches_accepted')
             if reference is None:
                 reference = got
                 if not got:
@@ -130,8 +204,22 @@ def run_project(rep, ctx, work, k, rng):
                 diff = [x for x in got if x not in reference][:2] + [x for x in reference if x not in got][:2]
                 kind = 'same-documents-new-process' if v == 0 else 'permuted-keys-or-files'
                 add_violation(rep, f'C13/findings-differ/{kind}', f'variant {v} launch {launch} (-j {j}): {len(got)} records vs {len(reference)}; e.g. {str(diff)[:500]}', replay)
+        # applying the fixes gives the same files whatever the layout (several rules fix the same node)
+        du = d + '-u'
+        shutil.rmtree(du, ignore_errors=True)
+        shutil.copytree(d, du)
+        rcu, outu, erru = sg(['scan', '-U', '-j', str(1 if v % 2 else 8)], cwd=du)
+        rep['evaluations'] += 1
+        upd = {p: open(os.path.join(du, p), encoding='utf-8').read() for p in tree if p.startswith(('src/', 'lib/'))}
+        shutil.rmtree(du, ignore_errors=True)
+        if upd_ref is None:
+            upd_ref = upd
+            count(rep, 'files_changed_by_update', sum(1 for p in upd if upd[p] != tree[p]))
+        elif upd != upd_ref:
+            bad = [p for p in upd if upd[p] != upd_ref[p]][:2]
+            add_violation(rep, 'C13/update-differs/permuted-keys-or-files', f'variant {v}: `scan -U` leaves different sources than variant 0: {[(p, upd[p][:80], upd_ref[p][:80]) for p in bad]}', replay)
         # snapshots: test -U then test
-        if v % 2 == 0:
+        if fixed and v % 2 == 0:
             rc, out, err = sg(['test', '-U'], cwd=d)
             rc2, out2, err2 = sg(['test'], cwd=d)
             rep['evaluations'] += 2
@@ -156,15 +244,26 @@ def run_project(rep, ctx, work, k, rng):
     for site, ks in orders.items():
         count(rep, f'distinct_orders.{site}', len(ks))
     count(rep, 'records_in_reference', len(reference or []))
+    return rep
 
 
 def run(ctx):
     rep = new_report(); rep['_nt'] = set()
     work = ctx.workdir()
-    n = 12 if ctx.thorough else 3
-    for k in range(n):
-        run_project(rep, ctx, work, k, ctx.rng)
-    rep['distinct_nontrivial'] = len(rep.pop('_nt'))
+    import concurrent.futures as cf
+    n = 480 if ctx.thorough else 64
+    with cf.ThreadPoolExecutor(max_workers=common.NCPU) as ex:
+        subs = list(ex.map(lambda k: run_project(ctx, work, k), range(n)))
+    nt = rep.pop('_nt')
+    for sub in subs:
+        nt |= sub.pop('_nt')
+        rep['evaluations'] += sub['evaluations']
+        for kk, v in sub['counters'].items():
+            count(rep, kk, v)
+        for v in sub['violations']:
+            add_violation(rep, v['signature'], v['what'], v['replay'])
+        rep['notes'] += [x for x in sub['notes'] if x not in rep['notes']]
+    rep['distinct_nontrivial'] = len(nt)
     rep['samples'].append({'rule': 'r1: pattern foo($A, $B) with utils u1..u4 (+ global g1, g2), 2 constraints, transform chain T1->T2->T3 + rewrite RW, 2 rewriters', 'variants': 'keys of utils/constraints/transform permuted, rewriters shuffled, rule files renamed / merged into one multi-document file'})
     ctx.cleanup()
     return rep
